@@ -47,21 +47,26 @@ theorem C09_budget (src : Bytes) (n block : Nat) (script : List Nat) (ops : List
 /-- **no CRLF inside a line.** -/
 theorem C09_no_interior_crlf (s : St) (size : Nat) :
     ∀ pre suf, (readline s size).1 = pre ++ CR :: LF :: suf → suf = [] :=
-  readlineLoop_onlyFinal _ [] s noCRLF_nil
+  giveBack_onlyFinal _ (readlineLoop_onlyFinal _ [] s noCRLF_nil)
 
 /-- **cut reason.** A line that does not end in CRLF reached the caller's size limit
-    (or everything that was left), or the input is exhausted. -/
+    (or everything that was left), or the input is exhausted, or it was cut one byte early
+    because that byte is a CR that may be the first half of a CRLF: the CR is then the next
+    byte delivered. -/
 theorem C09_cut_reason (s : St) (size : Nat) :
     (∃ pre, (readline s size).1 = pre ++ [CR, LF])
     ∨ min size (s.buf.length + s.todo) ≤ (readline s size).1.length
-    ∨ (readline s size).2.pending = [] :=
-  readlineLoop_cut _ [] s
+    ∨ (readline s size).2.pending = []
+    ∨ ((readline s size).2.buf.head? = some CR ∧
+        (min size (s.buf.length + s.todo) ≤ (readline s size).1.length + 1 ∨ (readline s size).2.pending = [CR])) :=
+  readline_cut s size
 
 /-- a result is never longer than asked -/
 theorem C09_length (s : St) (size : Nat) :
     (readline s size).1.length ≤ size ∧ (read s size).1.length ≤ size := by
   constructor
   · have := readlineLoop_length (min size (s.buf.length + s.todo)) [] s (by simp)
+    have := giveBack_length (readlineLoop (min size (s.buf.length + s.todo)) [] s)
     unfold readline; omega
   · unfold Reader.read
     simp only
@@ -79,7 +84,7 @@ theorem C09_bounded_reads (s : St) (size : Nat) :
   constructor
   · exact read_reads s size
   · have := readlineLoop_reads (min size (s.buf.length + s.todo)) [] s
-    unfold readline; simp at this; omega
+    unfold readline; rw [giveBack_log]; simp at this; omega
 
 def C09_full : Prop :=
   (∀ src n block script ops,
@@ -95,7 +100,10 @@ def C09_full : Prop :=
   (∀ s size pre suf, (readline s size).1 = pre ++ CR :: LF :: suf → suf = []) ∧
   (∀ s size, (∃ pre, (readline s size).1 = pre ++ [CR, LF])
       ∨ min size (s.buf.length + s.todo) ≤ (readline s size).1.length
-      ∨ (readline s size).2.pending = []) ∧
+      ∨ (readline s size).2.pending = []
+      ∨ ((readline s size).2.buf.head? = some CR ∧
+          (min size (s.buf.length + s.todo) ≤ (readline s size).1.length + 1
+            ∨ (readline s size).2.pending = [CR]))) ∧
   (∀ s size, (Reader.read s size).2.log.length ≤ s.log.length + 1 ∧
       (readline s size).2.log.length ≤ s.log.length + size)
 
@@ -105,9 +113,14 @@ theorem C09 : C09_full :=
 /-! non-vacuity: a CRLF divided to two blocks is still returned at the end of one line -/
 example : (run 3 (St.init [97, 98, 13, 10, 99] 5 []) [.readline 65536, .readline (-1)]).1
     = [[97, 98, 13, 10], [99]] := by
-  simp [run, step, readline, resolve, St.init, readlineLoop, St.prep, St.fill, St.under, findCRLF, CR, LF]
+  simp [run, step, readline, giveBack, resolve, St.init, readlineLoop, St.prep, St.fill, St.under, findCRLF, CR, LF]
 example : (run 8 (St.init [97, 13, 10, 98] 3 [0, 0]) [.readline (-1), .read (-1), .read 1]).1
     = [[97, 13, 10], [], []] := by
-  simp [run, step, readline, Reader.read, resolve, St.init, readlineLoop, St.prep, St.fill, St.under, findCRLF, CR, LF]
+  simp [run, step, readline, giveBack, Reader.read, resolve, St.init, readlineLoop, St.prep, St.fill, St.under, findCRLF, CR, LF]
+
+/-! a line cut by the size limit leaves the CR of a CRLF for the next line -/
+example : (run 8 (St.init [97, 98, 13, 10, 99] 5 []) [.readline 3, .readline 3, .readline 3]).1
+    = [[97, 98], [13, 10], [99]] := by
+  simp [run, step, readline, giveBack, resolve, St.init, readlineLoop, St.prep, St.fill, St.under, findCRLF, CR, LF]
 
 end Poor.Props.C09
